@@ -67,6 +67,7 @@ type Clause struct {
 type LoopSpec struct {
 	Invariants []*Clause
 	Decreases  *SExpr
+	Steps      []*Clause
 }
 
 type GhostAssign struct {
@@ -96,6 +97,7 @@ type Contract struct {
 	Inline    bool // force inlining at call sites (no modular use)
 	Rely      []*Clause // interference block: what steps of other goroutines may do to the shared state
 	Guarantee []*Clause // interference block: what every step of this goroutine must respect
+	SpawnSets []*GhostAssign // ghost updates applied to the spawner when the function is started with `go`
 	Concurrent *SExpr   // func contract: `concurrent Name(args)` - run under the named interference
 	NoPanic   bool
 	File      string
@@ -498,6 +500,20 @@ func (db *SpecDB) loadFile(path, pkgShort string, slashAt bool) error {
 			cur.Trusted = true
 		case "inline":
 			cur.Inline = true
+		case "step":
+			// step [label] {props} expr : holds at the end of every iteration of the current loop;
+			// locals of the body are in scope and old(e) is the value of e at the start of the iteration
+			if cur == nil || curLoop == nil {
+				return fmt.Errorf("%s: step outside loop", pos)
+			}
+			cl, err := parseClause(rest, pos)
+			if err != nil {
+				return err
+			}
+			if len(cl.Props) == 0 {
+				cl.Props = cur.Props
+			}
+			curLoop.Steps = append(curLoop.Steps, cl)
 		case "requires", "ensures", "invariant":
 			if cur == nil {
 				return fmt.Errorf("%s: clause outside block", pos)
@@ -599,7 +615,7 @@ func (db *SpecDB) loadFile(path, pkgShort string, slashAt bool) error {
 			}
 			curLoop = &LoopSpec{}
 			cur.Loops[n] = curLoop
-		case "ghostset":
+		case "ghostset", "spawnset":
 			// ghostset LHS = RHS [if COND]
 			parts := strings.SplitN(rest, " = ", 2)
 			if len(parts) != 2 {
@@ -623,7 +639,12 @@ func (db *SpecDB) loadFile(path, pkgShort string, slashAt bool) error {
 			if err != nil {
 				return err
 			}
-			cur.Ghosts = append(cur.Ghosts, &GhostAssign{LHS: l, RHS: r, Cond: cond})
+			if word == "spawnset" {
+				// effect on the SPAWNER's per-goroutine ghosts when this function is started with `go`
+				cur.SpawnSets = append(cur.SpawnSets, &GhostAssign{LHS: l, RHS: r, Cond: cond})
+			} else {
+				cur.Ghosts = append(cur.Ghosts, &GhostAssign{LHS: l, RHS: r, Cond: cond})
+			}
 		case "spec":
 			// spec func name(a,b) = expr | spec rec name(a) sort = expr
 			w2, r2 := splitWord(rest)
